@@ -936,7 +936,11 @@ def expand(group_path):
             a = parse_kv(rest)
             txt, srcs = unit_contract_of(a['group'], a['unit'])
             extra, i = payload_from(i + 1)
-            emit('#[verifier::external_body]\n' + txt + extra + '{ unimplemented!() }\n')
+            # the extra clauses end at the first blank line; what follows is ordinary template text
+            ex_lines = extra.split('\n')
+            cut = next((k for k, l in enumerate(ex_lines) if not l.strip()), len(ex_lines))
+            extra, rest_txt = '\n'.join(ex_lines[:cut]) + ('\n' if cut else ''), '\n'.join(ex_lines[cut:])
+            emit('#[verifier::external_body]\n' + txt + extra + '{ unimplemented!() }\n' + rest_txt)
             log.append({'unit': 'stub:' + a['unit'], 'rule': 'SLICE-CALL', 'what': 'external_body stub with the contract of unit %s of group %s%s' % (
                 a['unit'], a['group'], (' + %d extra line(s): %s' % (len(extra.strip().split('\n')), ' '.join(extra.split())[:300])) if extra.strip() else '')})
         elif word == 'copyfrom':
